@@ -48,7 +48,7 @@ def _rg_case(draw, tier):
     """Circuits built by the library's own templates (region graphs, tabular data): realistic shapes."""
     from vlib.props import C12
 
-    c = draw(C12.strategy(tier).filter(lambda c: c["family"] in ("rg", "tabular")))
+    c = draw(C12.strategy(tier, families=("rg", "rg", "rg", "tabular")))
     return {"template": c, "semiring": draw(st.sampled_from(["sum-product", "lse-sum", "complex-lse-sum"])),
             "fold": draw(st.booleans()), "optimize": draw(st.booleans()), "vseed": draw(st.integers(0, 2**20)),
             "profile": draw(st.sampled_from(tie.PROFILES)), "xseed": draw(st.integers(0, 2**20)),
